@@ -33,9 +33,23 @@ class Recorder:
         idxs = self.rng.sample(range(len(population)), k)
         res = [population[i] for i in idxs]
         import sys as _sys
-        caller = _sys._getframe(1).f_code.co_name
+        fr = _sys._getframe(1)
+        caller = fr.f_code.co_name
+        # context used only to put the independent draws of one simultaneous-election round
+        # into the model's processing order (Python iterates a frozenset in hash order)
+        winner = fr.f_locals.get("winner")
+        fpv = fr.f_locals.get("fpv")
+        rnd, f = None, fr
+        for _ in range(6):
+            f = f.f_back
+            if f is None:
+                break
+            ps = f.f_locals.get("prev_state")
+            if ps is not None and hasattr(ps, "round_number"):
+                rnd = (id(f.f_locals.get("self")), ps.round_number)
+                break
         self.log.append({"kind": "sample", "population": population, "k": k, "result": res,
-                         "caller": caller})
+                         "caller": caller, "winner": winner, "round": rnd, "fpv": fpv})
         return res
 
     def choices(self, population, weights=None, *, cum_weights=None, k=1):
